@@ -319,4 +319,27 @@ theorem verify_stored {env : Env} {s : St} (hc : ChainOK env s.txs) {t : Tx} (ht
   rw [chain_verifyPrevs hc t ht]
   exact chain_sig hc t ht
 
+theorem writeBody_count {env : Env} {subs : List Sub} {s w : St} {tx : Tx} {p : Option Nat}
+    (h : writeBody env subs s tx p = .ok w) : w.count = s.count + 1 := by
+  unfold writeBody at h
+  split at h
+  · rename_i w1 hw1
+    split at h
+    · rename_i w2 hw2
+      simp only [Res.ok.injEq] at h
+      have b := (graphAdd_spec hw2).2
+      have c1 : w1.count = s.count := by
+        unfold writePayloadStep at hw1
+        split at hw1
+        · simp only [Res.ok.injEq] at hw1; rw [← hw1]
+        · split at hw1
+          · cases hw1
+          · simp only [Res.ok.injEq] at hw1; rw [← hw1]
+      rw [← h, b]; unfold finishWrite; simp [c1]
+    · cases h
+    · cases h
+  · cases h
+  · cases h
+
+
 end Nuts.C06.Late
